@@ -96,6 +96,8 @@ namespace sqf::runtime
     public:
         // Identity of this frame instance, assigned by context::push_frame.
         size_t verif_id = 0;
+        // True if this frame is a plain block: neither exit nor error behaviour attached.
+        bool verif_plain() const { return !m_exit_behavior && !m_error_behavior; }
 #endif
 
     private:
